@@ -124,7 +124,8 @@ FullEq(f, o) ==
                 /\ o.events = f.events
                 /\ f.err.t \in {"ErrMarshal", "ErrExpectedArgument", "ErrNoArgumentForBool", "ErrInvalidChoice"} => o.errOpt = f.err.opt
                 /\ SpecOk(f) => (ValuesEq(f, o) /\ PosEq(f, o) /\ o.retargs = f.retargs
-                                 /\ \A i \in 1..UserN(f) : o.isSet[i] = f.isSet[i])
+                                 /\ \A i \in 1..UserN(f) : o.isSet[i] = f.isSet[i]
+                                 /\ \A k \in 1..UserN(f) : o.isSetDef[k] = f.isSetDef[k])       \* Option.IsSetDefault
                 \* what ParseArgs returns beside an error (parser.go:341-351): the unparsed tail for a help request, otherwise the
                 \* token being handled followed by the unparsed tail (not required by any property; fidelity only)
                 /\ (~SpecOk(f) /\ f.sc.completion = E) => o.retargs = (IF f.err.t = "ErrHelp" THEN f.args ELSE <<f.cur>> \o f.args))
